@@ -9,7 +9,7 @@ from hypothesis import strategies as st
 
 from vf.gen import model, neutral, sheets
 from vf.gen.profiles import PROFILES
-from vf.gen.tokens import find
+from vf.gen.tokens import find, separated
 from vf.runner import Ctx, Partial, Violation, digest, hyp_search, shard_map
 
 RULE = ("(A) abstract documents holding tables (1..4 x 1..4, multi-paragraph / empty / nested cells, adjacent tables, header rows, ragged rows where the format allows) rendered to docx, "
@@ -77,6 +77,7 @@ def judge_doc(doc, fmt, render_kw=None):
         fails.append(("table-count", f"{len(grids)} tables returned for {len(want)} source tables"))
         return fails
     all_tokens = {t for tb in want for row in tb for toks, _ in row for t in toks}
+    blank_pairs = model.run_pairs(doc) if ((render_kw or {}).get("opts") or {}).get("run_space") else set()
     for ti, (g, w) in enumerate(zip(grids, want)):
         if len(g) != len(w):
             fails.append(("shape", f"table {ti + 1}: {len(g)} rows returned, source has {len(w)}"))
@@ -92,6 +93,10 @@ def judge_doc(doc, fmt, render_kw=None):
                 foreign = [t for t in found if t not in set(toks)]
                 if own != toks:
                     fails.append(("cell", f"table {ti + 1} cell ({ri + 1},{ci + 1}) holds {found}, source cell holds {toks}"))
+                    break
+                glued = next(((a, b) for a, b in zip(toks, toks[1:]) if (a, b) in blank_pairs and not separated(cell, a, b)), None)
+                if glued:
+                    fails.append(("cell", f"table {ti + 1} cell ({ri + 1},{ci + 1}): {glued[0]} and {glued[1]} are separated by a blank in the source cell but adjacent in {cell[:60]!r}"))
                     break
                 if foreign and not nested:
                     fails.append(("cell", f"table {ti + 1} cell ({ri + 1},{ci + 1}) also holds tokens of other cells: {foreign[:3]}"))
